@@ -278,13 +278,18 @@ func crlWorkload(wl workload, dir string) {
 	if wl.Kind == "crl-ticker" {
 		opts.Interval = 50 * time.Millisecond
 	}
+	// configured trusted signer certificates: three unrelated CAs everywhere (five with the issuing CA
+	// in the mixed sets), so that the per-handshake chain sets are built next to a non-trivial list
+	for i := 0; i < 3; i++ {
+		opts.Trusted = append(opts.Trusted, pki.NewRoot(pki.CertOpts{CN: fmt.Sprintf("C13 unrelated trusted signer %d", i)}).Cert)
+	}
 	var cfgLocs []*core.CRLLocations
 	if wl.Sets == "mixed-with-configured" {
 		cfgFile := filepath.Join(dir, "configured.crl")
 		_ = os.WriteFile(cfgFile, gen.SpecFor(w.Int, sets[0].base).Build(w.Int.Key).DER, 0644)
 		opts.CRLFiles = []string{cfgFile}
 		opts.CRLUrls = []string{sets[1].url}
-		opts.Trusted = []*x509.Certificate{w.Int.Cert}
+		opts.Trusted = append(opts.Trusted, pki.NewRoot(pki.CertOpts{CN: "C13 unrelated trusted signer 3"}).Cert, w.Int.Cert)
 		cfgLocs = []*core.CRLLocations{{CRLFile: cfgFile}, {CRLUrl: sets[1].url}}
 	}
 	chk, err := l2.Start(opts)
